@@ -595,4 +595,127 @@ theorem atomic_replace_final (dir base : Str) (chunks : List Str) (fs : Fs) :
   · simp only [read_put, if_true]
   · rw [read_put, if_neg (tmp_ne_target dir base), read_del, if_pos rfl]
 
+/-! ## a failing flush -/
+
+theorem abortOps_untouched (dir base : Str) (written : List Str) (q : Str) (hq : q ≠ tmpName dir base) :
+    ∀ op ∈ abortOps dir base written, touches op q = false := by
+  intro op hop
+  have hne : (tmpName dir base == q) = false := by simpa using fun e => hq e.symm
+  simp only [abortOps, List.mem_append, List.mem_cons, List.mem_map, List.not_mem_nil, or_false] at hop
+  rcases hop with ((rfl | rfl | rfl) | ⟨d, _, rfl⟩) | rfl | rfl <;> simp [touches, hne]
+
+theorem abortOps_final (dir base : Str) (written : List Str) (fs : Fs) :
+    (run (abortOps dir base written) fs).read (tmpName dir base) = none := by
+  have e : abortOps dir base written
+      = ([FsOp.creat (tmpName dir base), .chmod (tmpName dir base) writePerms, .chown (tmpName dir base) rootUid rootGid]
+          ++ written.map (.write (tmpName dir base)) ++ [.close (tmpName dir base)]) ++ [.unlink (tmpName dir base)] := by
+    simp [abortOps]
+  rw [e, run_append, run_single]
+  simp [step, read_del]
+
+/-! ## mutation histories -/
+
+theorem map_replace_loc (d : List Entry) (e : Entry) :
+    (d.map fun x => if x.loc == e.loc then e else x).map Entry.loc = d.map Entry.loc := by
+  induction d with
+  | nil => rfl
+  | cons x xs ih =>
+    simp only [List.map_cons, ih]
+    by_cases h : (x.loc == e.loc) = true
+    · simp only [h, if_true]; rw [(by simpa using h : x.loc = e.loc)]
+    · simp [h]
+
+theorem setAdd_isSet (d : List Entry) (e : Entry) (h : Spec.IsSet d) : Spec.IsSet (setAdd d e) := by
+  unfold Spec.IsSet at h ⊢
+  unfold setAdd
+  split
+  · rw [map_replace_loc]; exact h
+  · rename_i hany
+    have hfresh : e.loc ∉ d.map Entry.loc := by
+      intro hm
+      obtain ⟨x, hx, hxe⟩ := List.mem_map.mp hm
+      exact hany (List.any_eq_true.mpr ⟨x, hx, by simp [hxe]⟩)
+    simp only [List.map_append, List.map_cons, List.map_nil]
+    rw [List.nodup_append]
+    exact ⟨h, by simp, fun a ha b hb => by
+      simp only [List.mem_singleton] at hb; subst hb; intro e'; subst e'; exact hfresh ha⟩
+
+theorem mem_setAdd (d : List Entry) (e y : Entry) (h : y ∈ setAdd d e) : y ∈ d ∨ y = e := by
+  unfold setAdd at h
+  split at h
+  · obtain ⟨x, hx, hxy⟩ := List.mem_map.mp h
+    split at hxy
+    · exact Or.inr hxy.symm
+    · exact Or.inl (hxy ▸ hx)
+  · simp only [List.mem_append, List.mem_singleton] at h; exact h
+
+theorem foldl_setAdd_isSet (es d : List Entry) (h : Spec.IsSet d) : Spec.IsSet (es.foldl setAdd d) := by
+  induction es generalizing d with
+  | nil => exact h
+  | cons e r ih => exact ih _ (setAdd_isSet d e h)
+
+theorem mem_foldl_setAdd (es d : List Entry) (y : Entry) (h : y ∈ es.foldl setAdd d) : y ∈ d ∨ y ∈ es := by
+  induction es generalizing d with
+  | nil => exact Or.inl h
+  | cons e r ih =>
+    rcases ih _ h with h1 | h1
+    · rcases mem_setAdd d e y h1 with h2 | h2
+      · exact Or.inl h2
+      · exact Or.inr (by simp [h2])
+    · exact Or.inr (by simp [h1])
+
+theorem filter_isSet (d : List Entry) (p : Entry → Bool) (h : Spec.IsSet d) : Spec.IsSet (d.filter p) :=
+  (List.filter_sublist.map Entry.loc).nodup h
+
+/-- the entries an operation can bring into the set -/
+def opEntries : SetOp → List Entry
+  | .add e => [e]
+  | .update es => es
+  | .symDiffUpdate es => es
+  | _ => []
+
+theorem applyOp_isSet (s : List Entry) (op : SetOp) (h : Spec.IsSet s) : Spec.IsSet (applyOp s op) := by
+  cases op with
+  | add e => exact setAdd_isSet s e h
+  | discard l => exact filter_isSet s _ h
+  | clear => exact List.nodup_nil
+  | update es => exact foldl_setAdd_isSet es s h
+  | differenceUpdate ls => exact filter_isSet s _ h
+  | intersectionUpdate ls => exact filter_isSet s _ h
+  | symDiffUpdate es => exact foldl_setAdd_isSet _ _ (filter_isSet s _ h)
+
+theorem mem_applyOp (s : List Entry) (op : SetOp) (y : Entry) (h : y ∈ applyOp s op) : y ∈ s ∨ y ∈ opEntries op := by
+  cases op with
+  | add e => rcases mem_setAdd s e y h with h1 | h1; exact Or.inl h1; exact Or.inr (by simp [opEntries, h1])
+  | discard l => exact Or.inl (List.mem_filter.mp h).1
+  | clear => simp [applyOp] at h
+  | update es => exact mem_foldl_setAdd es s y h
+  | differenceUpdate ls => exact Or.inl (List.mem_filter.mp h).1
+  | intersectionUpdate ls => exact Or.inl (List.mem_filter.mp h).1
+  | symDiffUpdate es =>
+    rcases mem_foldl_setAdd _ _ y h with h1 | h1
+    · exact Or.inl (List.mem_filter.mp h1).1
+    · have h2 := (List.mem_filter.mp h1).1
+      rcases mem_foldl_setAdd es [] y h2 with h3 | h3
+      · simp at h3
+      · exact Or.inr h3
+
+theorem applyOps_isSet (s : List Entry) (hist : List SetOp) (h : Spec.IsSet s) : Spec.IsSet (applyOps s hist) := by
+  unfold applyOps
+  induction hist generalizing s with
+  | nil => exact h
+  | cons op r ih => exact ih _ (applyOp_isSet s op h)
+
+theorem mem_applyOps (s : List Entry) (hist : List SetOp) (y : Entry) (h : y ∈ applyOps s hist) :
+    y ∈ s ∨ ∃ op ∈ hist, y ∈ opEntries op := by
+  unfold applyOps at h
+  induction hist generalizing s with
+  | nil => exact Or.inl h
+  | cons op r ih =>
+    rcases ih _ h with h1 | ⟨o, ho, hy⟩
+    · rcases mem_applyOp s op y h1 with h2 | h2
+      · exact Or.inl h2
+      · exact Or.inr ⟨op, by simp, h2⟩
+    · exact Or.inr ⟨o, by simp [ho], hy⟩
+
 end Pkgcore.C24
